@@ -58,10 +58,14 @@ def pickMaxLast : Nat → List (Item String) → Nat := fun _ q => argBest (fun 
 def ordId : String → List (String × PEntry) → List (String × PEntry) := fun _ l => l
 def ordRev : String → List (String × PEntry) → List (String × PEntry) := fun _ l => l.reverse
 
+/-- what the Rust does since fix b2e85da: neighbours sorted by commodity name. -/
+def ordSorted : String → List (String × PEntry) → List (String × PEntry) :=
+  fun _ l => isortBy (fun a b => decide (a.1 ≤ b.1)) l
+
 def fuel : Nat := 200000
 
 def cfgs : List (Cfg String) :=
-  [⟨fuel, pickMax, ordId⟩, ⟨fuel, pickMax, ordRev⟩, ⟨fuel, pickMaxLast, ordId⟩, ⟨fuel, pickMaxLast, ordRev⟩,
+  [⟨fuel, pickMax, ordSorted⟩, ⟨fuel, pickMaxLast, ordSorted⟩, ⟨fuel, pickMax, ordId⟩, ⟨fuel, pickMax, ordRev⟩, ⟨fuel, pickMaxLast, ordId⟩, ⟨fuel, pickMaxLast, ordRev⟩,
    ⟨fuel, pickMin, ordId⟩, ⟨fuel, pickMin, ordRev⟩, ⟨fuel, pickFifo, ordId⟩, ⟨fuel, pickLifo, ordRev⟩]
 
 def leS (a b : String) : Bool := a ≤ b
